@@ -13,7 +13,10 @@ def to_np(x):
 
 def ref_args(case):
     """The float32-rounded argument values, as float64 (what the implementation actually sees)."""
-    return [np.float64(np.float32(a)) for a in case["args"]], {k: np.float64(np.float32(v)) for k, v in case["kwargs"].items()}
+    def one(a):
+        return np.asarray(a, dtype=np.float32).astype(np.float64) if isinstance(a, (list, tuple)) else np.float64(np.float32(a))
+
+    return [one(a) for a in case["args"]], {k: one(v) for k, v in case["kwargs"].items()}
 
 
 def tol(mag, scale=1.0):
